@@ -128,7 +128,41 @@ func Other(k int) int {
 	return b.Count() + lib.Size[local]() + lib.Size[*local]() + lib.Size[[]local]()
 }
 ''',
-        'main.go': 'package MODNAME\n\nimport (\n\t"MOD/lib"\n\t"MOD/p1"\n\t"MOD/p2"\n)\n\n' + HDR + '''
+        # a package-level initialiser that refers to a function declared further down (go/types
+        # creates that function's scope first), next to same-named local types in several functions
+        'p3/p3.go': 'package p3\n\nimport "MOD/lib"\n\n' + '''
+var cfg = load(3)
+
+func First() int {
+	type local struct{ x int8 }
+	return lib.Size[local]()*100 + lib.Size[[2]local]()
+}
+
+func Second() int {
+	type local struct{ x [3]int64 }
+	return lib.Size[local]()*100 + lib.Size[[2]local]()
+}
+
+var late = tail(2)
+
+func load(k int) int {
+	type local struct{ x [5]int64 }
+	return lib.Size[local]() + k
+}
+
+func Third() int {
+	type local struct{ x [7]int16 }
+	return lib.Size[local]()*100 + lib.Size[[]local]()
+}
+
+func tail(k int) int {
+	type local struct{ x [9]int32 }
+	return lib.Size[local]() + k
+}
+
+func Cfg() int { return cfg*1000 + late }
+''',
+        'main.go': 'package MODNAME\n\nimport (\n\t"MOD/lib"\n\t"MOD/p1"\n\t"MOD/p2"\n\t"MOD/p3"\n)\n\n' + HDR + '''
 type local struct{ q [5]int }
 
 func Run(k int) int {
@@ -140,6 +174,10 @@ func Run(k int) int {
 	trace(p1.LocalB())
 	trace(p1.Shared(k))
 	trace(p2.Shared(k))
+	trace(p3.First())
+	trace(p3.Second())
+	trace(p3.Third())
+	trace(p3.Cfg())
 	trace(lib.Size[local]())
 	{
 		type local struct{ q [7]int }
